@@ -1,7 +1,7 @@
 """Structural clauses added after the eighth round (g) of independently seeded changes (same discipline as rules5/6/7)."""
 from .core import op_place, op_local, callee_name, last_seg, norm_path, walk_expr
 from .report import RuleResult, Violation
-from .guard import Obl, dom_atoms, named_roots, reach, return_some_sites, deep_leaves
+from .guard import Obl, dom_atoms, named_roots, reach, return_some_sites, deep_leaves, roots_named
 from .tag import leaves, strip_casts
 
 FN_TRAITS = ("core::ops::FnMut", "core::ops::Fn", "core::ops::FnOnce")
@@ -443,3 +443,370 @@ def reader_never_panics(facts):
     r.floor = 50
     r.floor_what = "reader functions"
     return r
+
+
+# ------------------------------------------------------------------------------------------------ round 9 (h)
+# C01 / C02: a multigraph is rebuilt by appending
+def who_updates_edges(facts):
+    r = RuleResult("WHO-UPDATE", "Graph / StableGraph are multigraphs: their find-or-overwrite entry points (update_edge / try_update_edge) are called only by the wrappers of "
+                                 "the same name and by condensation (GUARD-CONDENSE); conversions, map / filter_map, from_edges, extend_with_edges and the serde readers "
+                                 "rebuild a graph with add_edge, which appends - update_edge would merge parallel edges and shift every later edge index")
+    n = 0
+    for b in facts.bodies:
+        if not b.file.startswith("src/") or "quickcheck" in b.file:
+            continue
+        for i, t in b.calls():
+            f = t["f"]
+            if last_seg(f["path"]) not in ("update_edge", "try_update_edge") or f.get("crate") != "petgraph":
+                continue
+            if f.get("selfhead", "") not in ("adt:graph_impl::Graph", "adt:graph_impl::stable_graph::StableGraph"):
+                continue
+            n += 1
+            owner = b.npath.split("::{closure")[0]
+            ok = last_seg(owner) in ("update_edge", "try_update_edge") or owner == "algo::condensation"
+            if ok:
+                r.ok(b.npath, "update#%d" % n, "wrapper of the same name / condensation")
+            else:
+                r.bad(Violation("WHO-UPDATE", b.npath, "update_edge-call", b.file, t["line"],
+                                "%s calls %s on a Graph / StableGraph: parallel edges of the source are merged into one (the later weight overwrites the earlier), the "
+                                "edge count drops and all later edges get lower indices" % (owner, last_seg(f["path"]))))
+    r.floor = 4
+    r.floor_what = "update_edge call sites on Graph / StableGraph"
+    return r
+
+
+# C05: Csr's separate undirected edge count follows the column array
+def csr_count_reset(facts):
+    r = RuleResult("PAIR-CSRCOUNT", "Csr keeps `edge_count` next to `column` (an undirected edge occupies two column entries and is counted once): a function that empties or "
+                                    "truncates `column` also stores `edge_count`")
+    n = 0
+    for b in facts.bodies:
+        if b.file != "src/csr.rs" or b.kind not in ("Fn", "AssocFn"):
+            continue
+        clears = []
+        for i, t in b.calls():
+            if last_seg(t["f"]["path"]) in ("clear", "truncate", "drain") and t["args"] and norm_path(t["f"]["path"]).startswith("alloc::vec::Vec"):
+                e = b.expr(t["args"][0], 6, named_leaf=True)
+                if ("field", "column") in leaves(e) and not any(x[0] == "field" and x[1] not in ("column",) for x in leaves(e)):
+                    clears.append((i, t))
+        for i, j, st in b.stmts():
+            lhs = st["lhs"]
+            fs = [x for x in lhs["p"] if isinstance(x, dict) and "f" in x]
+            if fs and fs[-1].get("n") == "column" and fs[-1].get("a") == "csr::Csr" and lhs["p"].index(fs[-1]) == len(lhs["p"]) - 1:
+                clears.append((i, st))
+        if not clears:
+            continue
+        n += 1
+        stores = [i for i, j, st in b.stmts() if any(isinstance(x, dict) and x.get("n") == "edge_count" and x.get("a") == "csr::Csr" for x in st["lhs"]["p"])]
+        whole = [i for i, j, st in b.stmts() if st["rv"]["k"] == "agg" and st["rv"].get("name") == "csr::Csr"]
+        if stores or whole:
+            r.ok(b.npath, "column-reset", "edge_count is stored in the same function")
+        else:
+            r.bad(Violation("PAIR-CSRCOUNT", b.npath, "column-reset", b.file, clears[0][1].get("line", b.line),
+                            "`column` is emptied but `edge_count` is not stored: on an undirected Csr edge_count() keeps reporting the old number after clear_edges() "
+                            "and edges added later are counted on top of it"))
+    r.floor = 1
+    r.floor_what = "functions that reset Csr.column"
+    return r
+
+
+# C06 / C05: the edge id of Csr's whole-graph iterator is the position in `column`
+def csr_edge_id_steps(facts):
+    o = Obl("PAIR-CSRINDEX", "Csr's EdgeReferences::next: the edge id is the position in the column array, so the id counter is stored once for EVERY element pulled from the "
+                             "row iterator - also for the mirrored entries of an undirected edge that are skipped")
+    for b in o.need_fn(facts, "«csr::EdgeReferences as core::iter::Iterator»::next"):
+        stores = {i for i, j, st in b.stmts() if any(isinstance(x, dict) and x.get("n") == "index" and x.get("a") == "csr::EdgeReferences" for x in st["lhs"]["p"])}
+        succ = b.cfg()[0]
+        rets = {i for i, bl in enumerate(b.blocks) if bl["term"]["k"] == "return" and not bl["cleanup"]}
+        n = 0
+        for h, t in b.calls():
+            if last_seg(t["f"]["path"]) != "next" or not t["args"]:
+                continue
+            e = b.expr(t["args"][0], 8, named_leaf=True)
+            if ("field", "iter") not in leaves(e):
+                continue
+            n += 1
+            sw = succ[h][0] if succ[h] else None
+            while sw is not None and b.blocks[sw]["term"]["k"] == "goto":
+                sw = succ[sw][0]
+            body = None
+            if sw is not None and b.blocks[sw]["term"]["k"] == "switch":
+                for (v, tgt) in b.switch_edges(sw):
+                    if v == 1:
+                        body = tgt
+            if body is None:
+                o.check(b, "pull#%d" % n, t["line"], False, "", "the Some arm of the row iterator's next() was not recognised - fail closed")
+                continue
+            free = reach(b, body, avoid=stores)
+            esc = (h in free) or bool(free & rets)
+            o.check(b, "pull#%d" % n, t["line"], bool(stores) and not esc, "every path from a pulled element to the next pull / return stores the id counter",
+                    "an element is pulled from the row iterator and the function can return or pull the next one without storing the id counter (the skipped mirror "
+                    "entries of an undirected edge): edge ids of edge_references() lag behind those of edges(a) - the same id names two different edges")
+        o.check(b, "pulls", b.line, n >= 1, "%d pull site(s)" % n, "row iterator pull not found in EdgeReferences::next")
+    o.r.floor = 2
+    return o.r
+
+
+# C09: kosaraju emits what the walkers emit
+def kosaraju_emits_walker_output(facts):
+    o = Obl("GUARD-SCCEMIT", "kosaraju_scc: every node pushed into the finish order or into a component is the result of a walker's next() (Dfs / DfsPostOrder emit each "
+                             "node once) - or is dominated by the true edge of a test-and-set on that node; a hand-rolled stack walk that filters first and marks later "
+                             "lists a node twice when parallel edges lead to it")
+    for b in o.need_fn(facts, "algo::kosaraju_scc"):
+        n = 0
+        for i, t in b.calls():
+            if last_seg(t["f"]["path"]) != "push" or not norm_path(t["f"]["path"]).startswith("alloc::vec::Vec") or len(t["args"]) < 2:
+                continue
+            al = op_local(t["args"][1])
+            if al is not None and b.lty(al).startswith("alloc::vec::Vec"):
+                continue        # sccs.push(scc)
+            recv = b.expr(t["args"][0], 8, named_leaf=True)
+            if any(x[0] == "field" and x[1] == "stack" for x in leaves(recv)):
+                continue
+            n += 1
+            e = b.expr(t["args"][1], 10)
+            from_walker = any(isinstance(s, tuple) and s[0] == "call" and last_seg(s[1]["path"]) == "next" and
+                              ("traversal::Dfs" in norm_path(s[1]["path"]) or "traversal::DfsPostOrder" in norm_path(s[1]["path"]) or "Walker" in norm_path(s[1]["path"])
+                               or "traversal::Dfs" in s[1].get("self", "") or "WalkerIter" in s[1].get("self", ""))
+                              for s in walk_expr(e))
+            marked = False
+            nr = named_roots(b, t["args"][1])
+            for (a, truth, src) in dom_atoms(b, i, named_leaf=True):
+                for s in walk_expr(a):
+                    if isinstance(s, tuple) and s[0] == "call" and norm_path(s[1]["path"]).endswith("VisitMap::visit") and truth is True and len(s[2]) >= 2:
+                        if roots_of(b, s[2][1]) & nr:
+                            marked = True
+            o.check(b, "emit#%d" % n, t["line"], from_walker or marked, "the pushed node is a walker's next() / guarded by a test-and-set",
+                    "a node is pushed into the result without coming from Dfs::next / DfsPostOrder::next and without a dominating `visit(node) == true`: with parallel "
+                    "edges the same node is listed twice in its component (the result is not a partition)")
+        # the same emission written as `v.extend(iter)` / `iter.collect()`: the iterator must be a walker (Walker::iter) or from_fn(|| walker.next(g))
+        for i, t in b.calls():
+            nm = last_seg(t["f"]["path"])
+            if nm == "extend" and norm_path(t["f"]["path"]).startswith(("alloc::vec::Vec", "core::iter::Extend")) and len(t["args"]) >= 2:
+                recv = b.expr(t["args"][0], 8, named_leaf=True)
+                if any(x[0] == "field" and x[1] == "stack" for x in leaves(recv)):
+                    continue
+                src = t["args"][1]
+            elif nm in ("collect", "from_iter") and t["args"] and b.lty(t["dest"]["l"]).startswith("alloc::vec::Vec") and not b.lty(t["dest"]["l"]).startswith("alloc::vec::Vec<alloc::vec::Vec"):
+                src = t["args"][0]
+            else:
+                continue
+            n += 1
+            e = b.expr(src, 12)
+            okw = False
+            for s_ in walk_expr(e):
+                if isinstance(s_, tuple) and s_[0] == "call" and (last_seg(s_[1]["path"]) == "iter" and "Walker" in norm_path(s_[1]["path"])):
+                    okw = True
+                if isinstance(s_, tuple) and s_[0] == "agg" and len(s_) > 1 and isinstance(s_[1], str) and "{closure" in s_[1] and facts.body(s_[1]) is not None:
+                    cb = facts.body(s_[1])
+                    for _, _, st2 in cb.stmts():
+                        if st2["lhs"]["l"] == 0 and not st2["lhs"]["p"]:
+                            pass
+                    if any(last_seg(t2["f"]["path"]) == "next" and ("traversal::Dfs" in norm_path(t2["f"]["path"]) or "traversal::Dfs" in t2["f"].get("self", "")) and t2["dest"]["l"] == 0
+                           for _, t2 in cb.calls()):
+                        okw = True
+            o.check(b, "emit#%d" % n, t["line"], okw, "the collected nodes are a walker's output",
+                    "nodes are collected into the result from an iterator that is not a Dfs / DfsPostOrder walker: a node may be listed twice (the result is not a partition)")
+        o.check(b, "emits", b.line, n >= 2, "%d emission site(s)" % n, "expected the finish-order push and the component push in kosaraju_scc")
+    o.r.floor = 3
+    return o.r
+
+
+def roots_of(b, e):
+    return {x for x in leaves(e) if x[0] in ("arg", "local")}
+
+
+# C14: the two directions of OrderMap are written together
+def ordermap_both_directions(facts):
+    r = RuleResult("PAIR-ORDERMAP", "OrderMap keeps a bijection in two tables (pos_to_node: BTreeMap, node_to_pos: Vec): a function that writes one direction writes the other on "
+                                    "every path to its normal return - in particular no early return of set_position skips the pos_to_node entry (node_to_pos of a freed slot "
+                                    "holds the default position 0, which is also a real position)")
+    n = 0
+    for b in facts.bodies:
+        if b.file != "src/acyclic/order_map.rs" or b.kind != "AssocFn" or b.name not in ("set_position", "add_node", "remove_node"):
+            continue
+        ins = {i for i, t in b.calls() if last_seg(t["f"]["path"]) in ("insert", "remove") and "BTreeMap" in norm_path(t["f"]["path"])}
+        sts = set()
+        for i, j, st in b.stmts():
+            lhs = st["lhs"]
+            if lhs["p"] and lhs["p"][0] == "*":
+                base = b.local_expr(lhs["l"], 10)
+                if ("field", "node_to_pos") in leaves(base) or any(isinstance(s_, tuple) and s_[0] == "place" and any(isinstance(q, tuple) and q[0] == "f" and q[2] == "node_to_pos"
+                                                                                                                for q in s_[2]) for s_ in walk_expr(base)):
+                    sts.add(i)
+            if any(isinstance(x, dict) and x.get("n") == "node_to_pos" for x in lhs["p"]) and any(isinstance(x, dict) and "ix" in x for x in lhs["p"]):
+                sts.add(i)
+        for i, t in b.calls():
+            if last_seg(t["f"]["path"]) in ("take", "replace") and t["args"] and ("field", "node_to_pos") in leaves(b.expr(t["args"][0], 8, named_leaf=True)):
+                sts.add(i)
+        if not ins and not sts:
+            continue
+        n += 1
+        rets = {i for i, bl in enumerate(b.blocks) if bl["term"]["k"] == "return" and not bl["cleanup"]}
+        miss = []
+        if ins and (reach(b, 0, avoid=ins) & rets):
+            miss.append("pos_to_node")
+        if sts and (reach(b, 0, avoid=sts) & rets):
+            miss.append("node_to_pos")
+        if not ins:
+            miss.append("pos_to_node (never written)")
+        if not sts:
+            miss.append("node_to_pos (never written)")
+        if miss:
+            r.bad(Violation("PAIR-ORDERMAP", b.npath, "both-directions", b.file, b.line,
+                            "%s can return without writing %s: the node keeps a position that the position index does not know (nodes_iter / range / at_position skip "
+                            "it, a later node is given the same position and a cycle is accepted)" % (b.name, " and ".join(miss))))
+        else:
+            r.ok(b.npath, "both-directions", "both tables are written on every path to the return")
+    r.floor = 3
+    r.floor_what = "OrderMap writers"
+    return r
+
+
+# C15: residual arithmetic is direction-aware
+def residual_arithmetic_is_directional(facts):
+    r = RuleResult("FLOW-RESIDUAL", "ford_fulkerson.rs: capacity/flow subtraction happens only where the traversal direction of the edge is known - inside residual_capacity / "
+                                    "adjust_residual_flow, or under a comparison of the vertex with edge.source() / edge.target(); `capacity - flow` is the residual of a forward "
+                                    "edge only (a backward edge's residual is its flow)")
+    n = 0
+    for b in facts.bodies:
+        if b.file != "src/algo/ford_fulkerson.rs" or b.kind not in ("Fn", "AssocFn", "Closure"):
+            continue
+        for i, t in b.calls():
+            if norm_path(t["f"]["path"]) not in ("core::ops::Sub::sub", "core::ops::SubAssign::sub_assign"):
+                continue
+            n += 1
+            directional = False
+            for (a, truth, src) in dom_atoms(b, i):
+                if any(isinstance(s, tuple) and s[0] == "call" and last_seg(s[1]["path"]) in ("source", "target") for s in walk_expr(a)):
+                    directional = True
+            site = "sub#%d" % n
+            if directional:
+                r.ok(b.npath, site, "under a test of the vertex against an endpoint of the edge")
+            else:
+                r.bad(Violation("FLOW-RESIDUAL", b.npath, "undirected-sub", b.file, t["line"],
+                                "a capacity / flow subtraction that is not under a test of the traversal direction: along a backward edge of an augmenting path the "
+                                "bottleneck becomes capacity - flow instead of flow - flows go negative (or underflow) and the value exceeds the minimum cut"))
+    r.floor = 2
+    r.floor_what = "subtractions in ford_fulkerson.rs"
+    return r
+
+
+# C18 / C04 / C06: an index is compared with a bound, not with a count
+def index_vs_count(facts):
+    r = RuleResult("DIM-CMP", "MatrixGraph / StableGraph have vacant indices: a node index is never tested against node_count() of such a graph (a live node can have an index "
+                              ">= the count); the only such comparison allowed is the growth loop `while ix >= node_count() { add_node }`")
+    n = 0
+    NONCOMPACT = ("adt:matrix_graph::MatrixGraph", "adt:graph_impl::stable_graph::StableGraph")
+    for b in facts.bodies:
+        if not b.file.startswith("src/") or "quickcheck" in b.file or b.kind not in ("Fn", "AssocFn", "Closure"):
+            continue
+        for i, bl in enumerate(b.blocks):
+            t = bl["term"]
+            if t["k"] != "switch" or bl["cleanup"]:
+                continue
+            e = b.expr(t["d"], 10)
+            if not (isinstance(e, tuple) and e[0] == "bin" and e[1] in ("Lt", "Le", "Gt", "Ge")):
+                continue
+            for x, y in ((e[2], e[3]), (e[3], e[2])):
+                cnt = [s for s in walk_expr(x) if isinstance(s, tuple) and s[0] == "call" and last_seg(s[1]["path"]) == "node_count" and
+                       (s[1].get("selfhead") in NONCOMPACT or any(h[4:] in s[1].get("self", "") for h in NONCOMPACT))]
+                idx = [s for s in walk_expr(y) if isinstance(s, tuple) and s[0] == "call" and last_seg(s[1]["path"]) in ("index", "to_index")]
+                if not cnt or not idx:
+                    continue
+                n += 1
+                growth = any(last_seg(t2["f"]["path"]) in ("add_node", "try_add_node") and i in reach(b, j2) for j2, t2 in b.calls() if j2 in reach(b, i))
+                site = "cmp#%d" % n
+                if growth:
+                    r.ok(b.npath, site, "growth loop: nodes are added until the index exists")
+                else:
+                    r.bad(Violation("DIM-CMP", b.npath, "index-vs-count", b.file, t.get("line", b.line),
+                                    "a node index is compared with node_count() of a graph type that has vacant indices: after a removal a live node has an index >= the count, "
+                                    "so the test rejects it (MatrixGraph::is_adjacent then reports no edges for it and the graph6 encoding silently drops them)"))
+    r.floor = 1
+    r.floor_what = "index / node_count comparisons on MatrixGraph or StableGraph"
+    return r
+
+
+# C20 / C07: a vector filled in enumeration order is indexed by position, not by to_index
+ENUM_SRC = ("node_identifiers", "node_references", "node_indices")
+
+
+def position_vs_index(facts):
+    r = RuleResult("DIM-COLLECT", "a Vec collected from node_identifiers() / node_references() holds one entry per node IN ENUMERATION ORDER (length node_count): it is indexed with "
+                                  "NodeIndexable::to_index(..) only under a NodeCompactIndexable bound - on a graph with vacant indices position and index differ")
+    n = 0
+    for b0 in facts.bodies:
+        if not b0.file.startswith("src/algo") or b0.kind not in ("Fn", "AssocFn"):
+            continue
+        compact = any("NodeCompactIndexable" in str(p_) for p_ in (b0.preds or []))
+        for b in facts.with_closures(b0):
+            for i, t in b.calls():
+                if last_seg(t["f"]["path"]) not in ("collect", "from_iter") or not t["args"]:
+                    continue
+                n += 1
+                if "Vec<" not in b.lty(t["dest"]["l"]):
+                    r.ok(b.npath, "collect#%d" % n, "not collected into a Vec")
+                    continue
+                e = b.expr(t["args"][0], 14)
+                if not any(isinstance(s, tuple) and s[0] == "call" and last_seg(s[1]["path"]) in ENUM_SRC and s[1].get("crate") == "petgraph" for s in walk_expr(e)):
+                    r.ok(b.npath, "collect#%d" % n, "not a node enumeration")
+                    continue
+                vec_l = t["dest"]["l"]
+                bad = _indexed_by_to_index(facts, b, vec_l, 2)
+                site = "collect#%d" % n
+                if bad and not compact:
+                    r.bad(Violation("DIM-COLLECT", b.npath, "position-indexed", b.file, t["line"],
+                                    "a Vec filled in node_identifiers() order is indexed with to_index(..) (%s) and the function does not require NodeCompactIndexable: on a "
+                                    "StableGraph / MatrixGraph with a vacant index every node gets the entry of another node, or the lookup is out of bounds" % bad))
+                else:
+                    r.ok(b.npath, site, "not indexed by to_index" if not bad else "NodeCompactIndexable is required")
+    r.floor = 20
+    r.floor_what = "collect() sites in src/algo examined"
+    return r
+
+
+def _indexed_by_to_index(facts, b, l, depth):
+    """does body b (or a crate-local callee that receives the value) index local l with an expression containing NodeIndexable::to_index?"""
+    held = {l}
+    changed = True
+    while changed:
+        changed = False
+        for i, j, st in b.stmts():
+            rv = st["rv"]
+            ops = [op_local(x) for x in rv.get("o", [])] + ([rv["pl"]["l"]] if rv.get("pl") else [])
+            if any(x in held for x in ops) and not st["lhs"]["p"] and st["lhs"]["l"] not in held and rv["k"] in ("use", "ref", "rawptr", "cast"):
+                held.add(st["lhs"]["l"])
+                changed = True
+        for i, t in b.calls():
+            if t["args"] and op_local(t["args"][0]) in held and last_seg(t["f"]["path"]) in ("deref", "deref_mut", "as_slice", "as_mut_slice", "borrow", "as_ref", "iter") \
+                    and t["dest"]["l"] not in held:
+                held.add(t["dest"]["l"])
+                changed = True
+    for i, t in b.calls():
+        nm = last_seg(t["f"]["path"])
+        if nm in ("index", "index_mut", "get", "get_mut", "get_unchecked") and len(t["args"]) >= 2 and op_local(t["args"][0]) in held:
+            ie = b.expr(t["args"][1], 10)
+            if any(isinstance(s, tuple) and s[0] == "call" and norm_path(s[1]["path"]).endswith("NodeIndexable::to_index") for s in walk_expr(ie)):
+                return "%s at line %d" % (b.npath, t["line"])
+    for i, j, st in b.stmts():
+        for pl in [st["lhs"]] + ([st["rv"]["pl"]] if st["rv"].get("pl") else []) + [q for q in (op_place(o_) for o_ in st["rv"].get("o", [])) if q]:
+            if pl["l"] in held:
+                for x in pl["p"]:
+                    if isinstance(x, dict) and "ix" in x:
+                        ie = b.local_expr(x["ix"], 10)
+                        if any(isinstance(s, tuple) and s[0] == "call" and norm_path(s[1]["path"]).endswith("NodeIndexable::to_index") for s in walk_expr(ie)):
+                            return "%s at line %d" % (b.npath, st["line"])
+    if depth > 0:
+        for i, t in b.calls():
+            if t["f"].get("crate") != "petgraph":
+                continue
+            for k, a in enumerate(t["args"]):
+                if op_local(a) in held:
+                    for cb in facts.find(norm_path(t["f"]["path"])):
+                        if cb is b and depth < 2:
+                            continue
+                        hit = _indexed_by_to_index(facts, cb, k + 1, depth - 1)
+                        if hit:
+                            return hit
+    return None
